@@ -787,6 +787,10 @@ def transform(node, *callbacks):
                     and isinstance(node, ParsedObject)
                     and not node._metadata
                 ):
+                    # Annotate a copy: the callback may have handed back an object
+                    # that is in use elsewhere (a node of the input tree, or one
+                    # object returned for many nodes).
+                    node = node._replace()
                     node._metadata.update(prev._metadata)
 
         return node
